@@ -180,6 +180,8 @@ struct Expect {
     panicked_as_expected: bool,
     class: String,
     block: Option<(usize, u64)>,
+    /// ids of parts that carry a trace probe (ETok)
+    probe_ids: Vec<u32>,
 }
 
 const PANIC_AT: &str = "gcverif: injected element constructor panic";
@@ -188,6 +190,8 @@ fn run_swh<'gc, H: Part + Collect<'gc>, E: Part + Collect<'gc>>(mc: &'gc Mutatio
     let mut ex = Expect { class: format!("swh<{},{}>:{}:{}", H::NAME, E::NAME, stage_name(stage, len), if meta { "typemeta" } else { "plain" }), ..Default::default() };
     let hid = base;
     let eid = |i: usize| base + 1 + i as u32;
+    // a Static<H> header is deliberately not traced
+    let static_hdr = meta && base % 2000 == 0;
     macro_rules! script {
         ($b:expr) => {{
             obs::capture_on();
@@ -259,12 +263,18 @@ fn run_swh<'gc, H: Part + Collect<'gc>, E: Part + Collect<'gc>>(mc: &'gc Mutatio
                     if E::DROPS {
                         if E::ZST { ex.zst_alive += len as u64 } else { ex.alive.extend((0..len).map(eid)) }
                     }
+                    if H::NAME == "tok" && !static_hdr {
+                        ex.probe_ids.push(hid);
+                    }
+                    if E::NAME == "tok" {
+                        ex.probe_ids.extend((0..len).map(eid));
+                    }
                     Some(Gc::erase(g))
                 }
             }
         }};
     }
-    let g = if meta && base % 2000 == 0 {
+    let g = if static_hdr {
         ex.class.push_str(":unwrap_static_header");
         script!(GcSliceWithHeaderBuilder::<Static<H>, E>::new(len).unwrap_static_header())
     } else if meta {
@@ -551,6 +561,7 @@ pub fn run_case(case: &BCase) -> Outcome {
         let mut zst_alive_total: u64 = 0;
         let mut zst_dropped_expected: u64 = 0;
         let mut abandoned_blocks: Vec<usize> = Vec::new();
+        let mut rooted_probe_ids: Vec<u32> = Vec::new();
         let mut base = 1000u32;
         let mut ev_cursor = obs::events_len();
         for st in &case.steps {
@@ -601,6 +612,9 @@ pub fn run_case(case: &BCase) -> Outcome {
                         errs.push(format!("{}: {} zero-sized parts destructed, expected {}", ex.class, zst1 - zst0, ex.zst_dropped_now));
                     }
                     zst_dropped_expected += ex.zst_dropped_now;
+                    if ex.completed && *rooted {
+                        rooted_probe_ids.extend(ex.probe_ids.iter().copied());
+                    }
                     if ex.completed {
                         if count1 != count0 + 1 {
                             errs.push(format!("{}: completing the builder changed the Gc count from {count0} to {count1}", ex.class));
@@ -678,6 +692,25 @@ pub fn run_case(case: &BCase) -> Outcome {
                 errs.push(format!("allocator: {f:?}"));
             }
         }
+        // a completed, rooted allocation that contains a tracing part is visited by the next full cycle
+        let t0 = obs::events_len();
+        arena.finish_cycle();
+        arena.finish_cycle();
+        let traced: Vec<u32> = obs::events_since(t0).into_iter().filter_map(|e| if let Ev::Trace { id, .. } = e { Some(id) } else { None }).collect();
+        for id in &rooted_probe_ids {
+            if !traced.contains(id) {
+                errs.push(format!("the completed, rooted allocation holding tracing part {id} was not traced by a full collection cycle (its needs-trace flag is wrong)"));
+            }
+        }
+        for ev in obs::events_since(t0) {
+            if let Ev::Drop { id, .. } = ev {
+                if !alive_ids.contains(&id) {
+                    errs.push(format!("collection destructed part {id}, which is not part of any completed allocation"));
+                }
+                *dropped.entry(id).or_insert(0) += 1;
+            }
+        }
+        ev_cursor = obs::events_len();
         drop(arena);
         for ev in obs::events_since(ev_cursor) {
             if let Ev::Drop { id, .. } = ev {
